@@ -38,6 +38,12 @@ def norm_guard(body, eb, term, val):
         if ty and ty.startswith("std::option::Option"):
             some = (val == 1) or (isinstance(val, tuple) and 0 in val[1] and 1 not in val[1])
             none = (val == 0) or (isinstance(val, tuple) and 1 in val[1] and 0 not in val[1])
+            # `xs.get(i)` is Some exactly when i < xs.len(): state it as the comparison, which is
+            # what an index guard `if i < xs.len()` / `if xs.len() <= i { return }` says
+            if (some or none) and inner[0] == "call" and (inner[1].endswith("<impl [T]>::get") or inner[1].endswith("Vec::<T, A>::get")) and len(inner[2]) == 2 \
+                    and not (inner[2][1][0] == "agg" and "Range" in str(inner[2][1][1])) and not (inner[2][1][0] == "call" and "Range" in inner[2][1][1]):
+                cmp_ = ("bin", "Lt", inner[2][1], ("len", inner[2][0]))
+                return ("true" if some else "false", cmp_)
             if some:
                 return ("some", inner)
             if none:
